@@ -23,12 +23,15 @@ VARIABLES l,        \* next record
           nokw,     \* nokw[e]: tasks seen not-OK in that window
           out,      \* out[e]: tasks submitted by e and not yet returned to it
           lret,     \* lret[e]: tasks e received back in state LOST
+          retok,    \* retok[e]: tasks returned to e in state OK (their dependents' waitlists were served)
           mcl,      \* monitor's own count of consecutive losses per task (runner bookkeeping events)
           wakeSt,   \* state seen by the waiter goroutine at EvalWake, per <<e,t>>
           cancelled,
+          early,    \* tasks whose ExecRun was logged before the EvalSubmit that handed them out (the hook
+                    \* follows "go executor.Run", so the two may be logged in either order)
           bad       \* sequence of monitor failures
 
-vars == <<l, g, ts, running, okw, nokw, out, lret, mcl, wakeSt, cancelled, bad>>
+vars == <<l, g, ts, running, okw, nokw, out, lret, retok, mcl, wakeSt, cancelled, early, bad>>
 
 Terminal == {"OK","ERROR","LOST"}
 RangeSeq(s) == {s[i] : i \in DOMAIN s}
@@ -54,8 +57,8 @@ AppendAll(s, S) == IF S = {} THEN s ELSE LET x == CHOOSE y \in S : TRUE IN Appen
 Init ==
   /\ l = 1
   /\ g = [tasks |-> <<>>, deps |-> <<>>, phase |-> <<>>, roots |-> <<>>]
-  /\ ts = <<>> /\ running = <<>> /\ okw = <<>> /\ nokw = <<>> /\ out = <<>> /\ lret = <<>>
-  /\ mcl = <<>> /\ wakeSt = <<>> /\ cancelled = {} /\ bad = <<>>
+  /\ ts = <<>> /\ running = <<>> /\ okw = <<>> /\ nokw = <<>> /\ out = <<>> /\ lret = <<>> /\ retok = <<>>
+  /\ mcl = <<>> /\ wakeSt = <<>> /\ cancelled = {} /\ early = {} /\ bad = <<>>
 
 Begin(r) ==
   LET G == [tasks |-> r.tasks, deps |-> r.deps, phase |-> r.phase, roots |-> r.roots] IN
@@ -66,9 +69,11 @@ Begin(r) ==
   /\ nokw' = [e \in EvalsOf(G) |-> {}]
   /\ out'  = [e \in EvalsOf(G) |-> {}]
   /\ lret' = [e \in EvalsOf(G) |-> {}]
+  /\ retok' = [e \in EvalsOf(G) |-> {}]
   /\ mcl'  = [t \in TasksOf(G) |-> 0]
   /\ wakeSt' = <<>>
   /\ cancelled' = {}
+  /\ early' = {}
   /\ UNCHANGED bad
 
 (* a task changes state (as logged): update ts, running and every evaluation's windows *)
@@ -86,48 +91,57 @@ Step(r) ==
   CASE ev = "Begin" -> Begin(r)
     [] ev = "EvalStart" ->
          /\ OpenWindow(r.e)
-         /\ UNCHANGED <<g, ts, running, out, lret, mcl, wakeSt, cancelled, bad>>
+         /\ UNCHANGED <<g, ts, running, out, lret, retok, mcl, wakeSt, cancelled, early, bad>>
     [] ev = "EvalRecv" ->
          /\ OpenWindow(r.e)
          /\ lret' = [lret EXCEPT ![r.e] = IF ts[r.t] = "LOST" THEN @ \cup {r.t} ELSE @]
-         /\ UNCHANGED <<g, ts, running, out, mcl, wakeSt, cancelled, bad>>
+         /\ retok' = [retok EXCEPT ![r.e] = IF ts[r.t] = "OK" THEN @ \cup {r.t} ELSE @]
+         /\ UNCHANGED <<g, ts, running, out, mcl, wakeSt, cancelled, early, bad>>
     [] ev = "EvalReturn" ->
          /\ out' = [out EXCEPT ![r.e] = @ \ {r.t}]
          /\ lret' = [lret EXCEPT ![r.e] = IF ts[r.t] = "LOST" THEN @ \cup {r.t} ELSE @]
+         /\ retok' = [retok EXCEPT ![r.e] = IF ts[r.t] = "OK" THEN @ \cup {r.t} ELSE @]
          /\ bad' = IF r.t \in out[r.e] THEN bad ELSE Append(bad, Fail(r, "ReturnWasPending", ""))
-         /\ UNCHANGED <<g, ts, running, okw, nokw, mcl, wakeSt, cancelled>>
+         /\ UNCHANGED <<g, ts, running, okw, nokw, mcl, wakeSt, cancelled, early>>
     [] ev = "EvalSubmit" ->
          LET e == r.e  t == r.t
              notReady == r.runner /\ \E d \in DepTasks(t) : d \notin okw[e]
              dbl == r.runner /\ running[t]
              needed == NeededW(e, PhasesOf(RangeSeq(g.roots[e])))
              neededKF == NeededW(e, PhasesOf(RangeSeq(g.roots[e]) \cup lret[e]))
+             followers == {x \in DOMAIN ts : DepTasks(x) \cap retok[e] # {}}
+             neededKF2 == NeededW(e, PhasesOf(RangeSeq(g.roots[e]) \cup lret[e] \cup followers))
              fails == (IF notReady THEN {Fail(r, "SubmitReady", "")} ELSE {})
                       \cup (IF dbl THEN {Fail(r, "NoDoubleRun", "")} ELSE {})
                       \cup (IF t \in needed THEN {}
                             ELSE IF t \in neededKF THEN {Fail(r, "NeededOnly", "lost-return-reenqueue")}
+                            ELSE IF t \in neededKF2 THEN {Fail(r, "NeededOnly", "waitlist-followon")}
                             ELSE {Fail(r, "NeededOnly", "")})
          IN /\ SetTs(t, r.st)
             /\ running' = [running EXCEPT ![t] = @ \/ r.runner]
             /\ out' = [out EXCEPT ![e] = @ \cup {t}]
             /\ bad' = AppendAll(bad, fails)
-            /\ UNCHANGED <<g, lret, mcl, wakeSt, cancelled>>
+            /\ early' = IF r.runner THEN early \ {t} ELSE early
+            /\ UNCHANGED <<g, lret, retok, mcl, wakeSt, cancelled>>
     [] ev = "TaskState" ->
          /\ SetTs(r.t, r.st)
          /\ running' = [running EXCEPT ![r.t] = IF r.st \in Terminal THEN FALSE ELSE @]
-         /\ UNCHANGED <<g, out, lret, mcl, wakeSt, cancelled, bad>>
+         /\ UNCHANGED <<g, out, lret, retok, mcl, wakeSt, cancelled, early, bad>>
     [] ev = "ExecRun" ->
-         /\ bad' = IF running[r.t] THEN bad ELSE Append(bad, Fail(r, "RunOnlyWhenHandedOut", ""))
-         /\ UNCHANGED <<g, ts, running, okw, nokw, out, lret, mcl, wakeSt, cancelled>>
+         /\ early' = IF running[r.t] THEN early ELSE early \cup {r.t}
+         /\ UNCHANGED <<g, ts, running, okw, nokw, out, lret, retok, mcl, wakeSt, cancelled, bad>>
+    [] ev = "End" ->
+         /\ bad' = IF early = {} THEN bad ELSE Append(bad, Fail(r, "RunOnlyWhenHandedOut", ""))
+         /\ UNCHANGED <<g, ts, running, okw, nokw, out, lret, retok, mcl, wakeSt, cancelled, early>>
     [] ev = "EvalIdle" ->
          LET e == r.e
              stuck == out[e] = {} \/ \E t \in out[e] : ~(running[t] \/ ts[t] \in Terminal)
          IN /\ bad' = IF stuck /\ e \notin cancelled THEN Append(bad, Fail(r, "NotStuck", "")) ELSE bad
-            /\ UNCHANGED <<g, ts, running, okw, nokw, out, lret, mcl, wakeSt, cancelled>>
+            /\ UNCHANGED <<g, ts, running, okw, nokw, out, lret, retok, mcl, wakeSt, cancelled, early>>
     [] ev = "EvalWake" ->
          /\ wakeSt' = [x \in (DOMAIN wakeSt) \cup {<<r.e, r.t>>} |->
                           IF x = <<r.e, r.t>> THEN r.st ELSE wakeSt[x]]
-         /\ UNCHANGED <<g, ts, running, okw, nokw, out, lret, mcl, cancelled, bad>>
+         /\ UNCHANGED <<g, ts, running, okw, nokw, out, lret, retok, mcl, cancelled, early, bad>>
     [] ev = "EvalBook" ->
          LET t == r.t
              pre == IF <<r.e, t>> \in DOMAIN wakeSt THEN wakeSt[<<r.e, t>>] ELSE "?"
@@ -138,7 +152,7 @@ Step(r) ==
             /\ SetTs(t, r.st)
             /\ running' = running
             /\ bad' = IF ok THEN bad ELSE Append(bad, Fail(r, "LostBudget", ""))
-            /\ UNCHANGED <<g, out, lret, wakeSt, cancelled>>
+            /\ UNCHANGED <<g, out, lret, retok, wakeSt, cancelled, early>>
     [] ev = "EvalExit" ->
          LET e == r.e
              okres == r.err = ""
@@ -147,14 +161,14 @@ Step(r) ==
              f2 == IF ~okres /\ e \notin cancelled /\ ~\E t \in DOMAIN ts : ts[t] = "ERROR"
                    THEN {Fail(r, "ErrorHasCause", "")} ELSE {}
          IN /\ bad' = AppendAll(bad, f1 \cup f2)
-            /\ UNCHANGED <<g, ts, running, okw, nokw, out, lret, mcl, wakeSt, cancelled>>
+            /\ UNCHANGED <<g, ts, running, okw, nokw, out, lret, retok, mcl, wakeSt, cancelled, early>>
     [] ev = "Cancel" ->
          /\ cancelled' = cancelled \cup {r.e}
-         /\ UNCHANGED <<g, ts, running, okw, nokw, out, lret, mcl, wakeSt, bad>>
+         /\ UNCHANGED <<g, ts, running, okw, nokw, out, lret, retok, mcl, wakeSt, early, bad>>
     [] ev = "Stall" ->
          /\ bad' = Append(bad, Fail(r, "NoStall", r.after))
-         /\ UNCHANGED <<g, ts, running, okw, nokw, out, lret, mcl, wakeSt, cancelled>>
-    [] OTHER -> UNCHANGED <<g, ts, running, okw, nokw, out, lret, mcl, wakeSt, cancelled, bad>>
+         /\ UNCHANGED <<g, ts, running, okw, nokw, out, lret, retok, mcl, wakeSt, cancelled, early>>
+    [] OTHER -> UNCHANGED <<g, ts, running, okw, nokw, out, lret, retok, mcl, wakeSt, cancelled, early, bad>>
 
 Next == /\ l <= Len(Trace)
         /\ l' = l + 1
